@@ -197,7 +197,10 @@ func randomMapCase(rd *rand.Rand, kind string, size int, id int) *conCase {
 		if nLayers > 1 && target > 400 {
 			target = 400 // the judge compares chains pairwise
 		}
-		for len(m) < target {
+		if name == "1byte" && target > 180 {
+			target = 180
+		}
+		for tries := 0; len(m) < target && tries < 20*target+100; tries++ {
 			r := csr[rd.Intn(len(csr))]
 			f, l := randRun(rd, kind, r, m, target)
 			for _, x := range [][]int{f, l} {
